@@ -178,6 +178,44 @@ func c12One(cfg Config, seq []int, target, cont int, res *c12Res) *Violation {
 		}
 	}
 	res.Outcomes[fmt.Sprintf("walk-depth-%d", len(dumps)-1)]++
+	if target < 0 && cont == 1 {
+		// no revert: close, reopen, one more round - the history must continue across the reopen
+		closeSnaps(snaps)
+		w.closeAll()
+		if w.infra != "" {
+			res.Infra = w.infra
+			return nil
+		}
+		w.open()
+		if w.infra != "" {
+			return &Violation{Prop: "C12", Sig: "reopen-fails|reopen|any", Msg: where + ": " + w.infra}
+		}
+		comp = w.compactions()
+		if v := round(0); v != nil || res.Infra != "" {
+			return v
+		}
+		w.closeColl()
+		d3, s3, em := w.walkBack(len(seq) + 3)
+		closeSnaps(s3)
+		res.Walks++
+		if em != "" {
+			return &Violation{Prop: "C12", Sig: "walk-error|walk-after-reopen|any", Msg: where + ": " + em}
+		}
+		for k := 0; k < len(d3) || k < len(hist); k++ {
+			switch {
+			case k >= len(d3):
+				return &Violation{Prop: "C12", Sig: "walk-too-short|walk-after-reopen|any",
+					Msg: fmt.Sprintf("%s: after close, reopen and one more round, walking back ends after %d snapshots but %d rounds were persisted since the last compaction (missing: %s)", where, len(d3), len(hist), hist[len(hist)-1-k].dump)}
+			case k >= len(hist):
+				return &Violation{Prop: "C12", Sig: "walk-too-long|walk-after-reopen|any", Msg: fmt.Sprintf("%s: after reopen the walk yields %d snapshots for %d rounds", where, len(d3), len(hist))}
+			case d3[k] != hist[len(hist)-1-k].dump:
+				return &Violation{Prop: "C12", Sig: "walk-wrong-content|walk-after-reopen|any",
+					Msg: fmt.Sprintf("%s: after reopen, snapshot %d steps back shows %s, the store exposed %s at that time", where, k, d3[k], hist[len(hist)-1-k].dump)}
+			}
+		}
+		res.Outcomes[fmt.Sprintf("walk-after-reopen-depth-%d", len(d3)-1)]++
+		return nil
+	}
 	if target < 0 || target >= len(snaps) {
 		closeSnaps(snaps)
 		return nil
@@ -278,7 +316,7 @@ func c12Run(j c12Job) (res c12Res) {
 		for target := -1; target <= len(seq); target++ {
 			conts := []int{0, 1, 2, 3}
 			if target < 0 {
-				conts = []int{0}
+				conts = []int{0, 1}
 			}
 			if cfg.Concern != 0 && target > 0 {
 				continue // reverting across a compaction is documented to fail; only the walk is checked
